@@ -224,3 +224,84 @@ func init() {
 			"GetMinimalTTL / SubtractTTL / SetTTL: one pass over Answer, Ns, Extra and over every record of each (the per-record bodies are translated by T1); GetMinimalTTL starts from (false, max uint32) and returns 0 when no record counted")
 	})
 }
+
+// Lazy refresh: what the context handed to the background refresh carries, and what the refresh stores.
+func init() {
+	factFuncs = append(factFuncs, func(ex *factExtractor) {
+		const crel = "plugin/executable/cache/cache.go"
+		exec := ex.fn(crel, "Cache", "Exec")
+		lz := ex.fn(crel, "Cache", "doLazyUpdate")
+		// (1) In Exec (straight-line / if-structured: no loop, goto, label or function literal, so source order is
+		// execution order) the single doLazyUpdate call comes before every qCtx.SetResponse, and doLazyUpdate copies
+		// the context in its first statement, before anything else can touch it.
+		shape, before := false, false
+		if exec != nil && lz != nil {
+			var lazyPos []token.Pos
+			var setPos []token.Pos
+			structured := true
+			ast.Inspect(exec.Body, func(n ast.Node) bool {
+				switch y := n.(type) {
+				case *ast.ForStmt, *ast.RangeStmt, *ast.LabeledStmt, *ast.FuncLit, *ast.GoStmt, *ast.DeferStmt:
+					structured = false
+				case *ast.BranchStmt:
+					structured = false
+				case *ast.CallExpr:
+					switch ex.str(y.Fun) {
+					case "c.doLazyUpdate":
+						if ex.str(y) == "c.doLazyUpdate(msgKey, qCtx, next)" {
+							lazyPos = append(lazyPos, y.Pos())
+						} else {
+							structured = false
+						}
+					case "qCtx.SetResponse":
+						setPos = append(setPos, y.Pos())
+					}
+				}
+				return true
+			})
+			copyFirst := len(lz.Body.List) > 0 && ex.str(lz.Body.List[0]) == "qCtxCopy := qCtx.Copy()"
+			nCopyUse := 0
+			ast.Inspect(lz.Body, func(n ast.Node) bool {
+				if id, ok := n.(*ast.Ident); ok && id.Name == "qCtxCopy" {
+					nCopyUse++
+				}
+				return true
+			})
+			lzParams := ex.str(lz.Type) // func(msgKey string, qCtx *query_context.Context, next sequence.ChainWalker)
+			shape = structured && len(lazyPos) == 1 && len(setPos) >= 1 && copyFirst && nCopyUse == 2 &&
+				strings.Contains(lzParams, "qCtx *query_context.Context") && contains(stmtStrings(ex, lz.Body), "qCtx := qCtxCopy")
+			if shape {
+				before = true
+				for _, p := range setPos {
+					if p < lazyPos[0] {
+						before = false
+					}
+				}
+			}
+		}
+		ex.setBool("c05LazyCopyTakenBeforeCachedResp", before, shape,
+			"Cache.Exec: the one `c.doLazyUpdate(msgKey, qCtx, next)` call precedes every `qCtx.SetResponse(...)` (Exec has no loop/goto/closure), and doLazyUpdate starts with `qCtxCopy := qCtx.Copy()`: the refresh context does not carry the stale answer")
+		// (2) the refresh function runs the rest of the chain on the copy and stores exactly the response the copy holds
+		// afterwards, if any; it never puts a response into the copy itself.
+		okStore := false
+		if lz != nil {
+			ss := stmtStrings(ex, lz.Body)
+			calls := ex.calls(lz.Body)
+			nSave, nSet, nExec := 0, 0, 0
+			for _, c := range calls {
+				switch {
+				case c == "saveRespToCache":
+					nSave++
+				case strings.HasSuffix(c, ".SetResponse"):
+					nSet++
+				case c == "next.ExecNext":
+					nExec++
+				}
+			}
+			iExec, iR, iSave := indexOf(ss, "err := next.ExecNext(ctx, qCtx)"), indexOf(ss, "r := qCtx.R()"), indexOf(ss, "if r != nil { saveRespToCache(msgKey, r, c.backend, c.args.LazyCacheTTL) c.updatedKey.Add(1) }")
+			okStore = nSave == 1 && nSet == 0 && nExec == 1 && iExec >= 0 && iR > iExec && iSave > iR
+		}
+		ex.setBool("c05RefreshStoresContextResp", okStore, lz != nil,
+			"doLazyUpdate: `err := next.ExecNext(ctx, qCtx)` on the copy, then `r := qCtx.R()` and `if r != nil { saveRespToCache(msgKey, r, ...) }`; no SetResponse in the refresh itself")
+	})
+}
